@@ -244,6 +244,7 @@ func runReplayCase(c *verdict.Ctx, idx int, tmp string) {
 			rerr = rep.CS.VerifCatchupReplay(rep.CS.GetRoundState().Height)
 		}()
 		replayed := view(rep.CS.GetRoundState())
+		initialMarkers := countEndHeightMarkers(w2, cfg.InitialH-1)
 		rep.Close()
 		_ = w2.Stop()
 		w2.Wait()
@@ -276,7 +277,7 @@ func runReplayCase(c *verdict.Ctx, idx int, tmp string) {
 				key := "replay-state-differs"
 				onlyStep := len(d) == 1 && live.Step != replayed.Step
 				switch {
-				case live.Height == cfg.InitialH && emptyHeadRestartAt[live.Height]:
+				case live.Height == cfg.InitialH && emptyHeadRestartAt[live.Height] && initialMarkers > 1:
 					// at the initial height catchupReplay looks for "#ENDHEIGHT 0"; a restart on an empty head (right after a
 					// rotation) writes another "#ENDHEIGHT 0" in the middle of that height's records and the search finds it first
 					key = "replay-starts-at-endheight-0-written-by-restart-on-empty-head-at-initial-height"
@@ -339,6 +340,27 @@ func runReplayCase(c *verdict.Ctx, idx int, tmp string) {
 			liveWAL = w
 			nd.CS.VerifSetWAL(w)
 			c.Count("replay.live_wal_restarts", 1)
+		}
+	}
+}
+
+// countEndHeightMarkers counts the "#ENDHEIGHT h" records in the whole WAL group (-1: unreadable).
+func countEndHeightMarkers(w *cs.BaseWAL, h int64) int {
+	g := w.Group()
+	gr, err := g.NewReader(g.MinIndex())
+	if err != nil {
+		return -1
+	}
+	defer gr.Close()
+	dec := cs.NewWALDecoder(gr)
+	n := 0
+	for {
+		m, err := dec.Decode()
+		if err != nil {
+			return n
+		}
+		if e, ok := m.Msg.(cs.EndHeightMessage); ok && e.Height == h {
+			n++
 		}
 	}
 }
